@@ -16,3 +16,4 @@ mkdir -p "$tmp/vd/evidence" "$tmp/vd/replays"
 cp ../known_findings.txt "$tmp/vd/" 2>/dev/null
 export VERIF_DIR="$tmp/vd" VERIF_TIER="${2:-quick}"
 "$tmp/vcheck" "$@" | { if [ -n "${RA_FULL:-}" ]; then cat; else grep -v "^   "; fi; }
+exit ${PIPESTATUS[0]}
